@@ -108,6 +108,11 @@ impl Prop for C09 {
         let (inbound, ends) = gen::concat(&frames);
         let mut lc = if rng.chance(1, 3) { LinkCfg::fault_free(rng) } else { LinkCfg::swarm(rng) };
         lc.early_eof_pm = 0;
+        // the property quantifies over inputs and configurations: no transport errors and no
+        // idle timeouts here (a defect that loses bytes on those is C05's / C19's, and would
+        // reach the gate as a corrupted version value)
+        lc.err_pm = 0;
+        lc.long_stall_pm = 0;
         let reads = gen::gen_reads(rng, inbound.len(), &ends, &lc);
         let errs = reads
             .iter()
